@@ -8,6 +8,7 @@ import (
 	"fmt"
 	"os"
 	"path/filepath"
+	"runtime"
 	"sort"
 	"strconv"
 	"strings"
@@ -209,7 +210,7 @@ func cmdCheck(args []string) int {
 		vc.attachFindings(findings, prop)
 		vcs = append(vcs, vc)
 	}
-	opts := SolveOpts{TimeoutS: 20, WorkDir: work, Workers: 16}
+	opts := SolveOpts{TimeoutS: 20, WorkDir: work, Workers: min(16, max(2, runtime.NumCPU()))}
 	if *tier == "thorough" {
 		opts.TimeoutS = 60
 		opts.Consensus = true
